@@ -100,26 +100,41 @@ const (
 	failThrow
 	failUndefined
 	failReturn
-	failHostCall
+	failHostCall    // boom(k): a Go function that panics, called directly in the body
+	failCloseClosed // c = mkch(); close(c): the Go runtime refuses (enumerated with a failing deferred callee only)
 	numFail
 )
 
-var failNames = [...]string{"none", "throw", "undefined-name", "return", "failing-host-call"}
+var failNames = [...]string{"none", "throw", "undefined-name", "return", "failing-host-call", "close-closed-channel"}
 
 const failTag = 1
 
-func (g *gen) failStmt(kind int) ir.Stmt {
+func (g *gen) failStmt(kind int) []ir.Stmt {
 	switch kind {
 	case failThrow:
-		return ir.Throw{X: ir.S(fmt.Sprintf("F%d", g.id())), Tag: failTag}
+		return []ir.Stmt{ir.Throw{X: ir.S(fmt.Sprintf("F%d", g.id())), Tag: failTag}}
 	case failUndefined:
-		return ir.ExprStmt{X: ir.Var{Name: "undefinedName"}, Tag: failTag}
+		return []ir.Stmt{ir.ExprStmt{X: ir.Var{Name: "undefinedName"}, Tag: failTag}}
 	case failReturn:
-		return ir.Return{Vals: []ir.Expr{ir.I(5)}, Tag: failTag}
+		return []ir.Stmt{ir.Return{Vals: []ir.Expr{ir.I(5)}, Tag: failTag}}
 	case failHostCall:
-		return ir.ExprStmt{X: ir.Boom{ID: g.id()}, Tag: failTag}
+		return []ir.Stmt{ir.ExprStmt{X: ir.Boom{ID: g.id()}, Tag: failTag}}
+	case failCloseClosed:
+		c := fmt.Sprintf("c%d", g.id())
+		return []ir.Stmt{ir.Set(c, ir.ChanOf{}), ir.Close{X: ir.Var{Name: c}, Tag: failTag}}
 	}
 	panic("bad failure kind")
+}
+
+// failingDeferred reports whether the defer kinds contain a deferred callee
+// that fails (the error-precedence rule needs one).
+func failingDeferred(kinds []int) bool {
+	for _, k := range kinds {
+		if k == deferThrows || k == deferHostPanics || k == deferNilFunc {
+			return true
+		}
+	}
+	return false
 }
 
 // defer statement kinds (the deferred callee)
@@ -231,12 +246,12 @@ func buildSpineWith(sp Spec, payload func(g *gen) []ir.Stmt) []ir.Stmt {
 		var list []ir.Stmt
 		for i, s := range slots {
 			if sp.Fail != failNone && sp.Level == level && sp.Pos == i {
-				list = append(list, g.failStmt(sp.Fail))
+				list = append(list, g.failStmt(sp.Fail)...)
 			}
 			list = append(list, s...)
 		}
 		if sp.Fail != failNone && sp.Level == level && sp.Pos >= len(slots) {
-			list = append(list, g.failStmt(sp.Fail))
+			list = append(list, g.failStmt(sp.Fail)...)
 		}
 		return list
 	}
